@@ -19,8 +19,8 @@ RULE += '; also: statements in lower / swapped case, edge decimals (17 digits, e
 ASSUMPTIONS = ['identical tree = equal reflective struct (class + all attributes incl. alias and parentheses)',
                'statements rejected on first parse are outside C01']
 BUDGET = {'quick': (16, 270), 'thorough': (16, 1800)}
-SIZES = {'quick': dict(n_templates=6000, n_mut=0, n_soup=0, n_noise=False, n_lexeme=9000),
-         'thorough': dict(n_templates=60000, n_mut=0, n_soup=0, n_noise=False, n_lexeme=60000)}
+SIZES = {'quick': dict(n_templates=6000, n_mut=0, n_soup=0, n_noise=False, n_lexeme=9000, short_names=True),
+         'thorough': dict(n_templates=60000, n_mut=0, n_soup=0, n_noise=False, n_lexeme=60000, short_names=True)}
 
 
 def floors(tier):
